@@ -566,9 +566,610 @@ pub fn run(line: &str) -> String {
 
 // ------------------------------------------------------------------------------------------------
 // independent reference editor (documented semantics over the known token list)
+//
+// Extent based: an element is its start tag, everything up to the end tag that closes it (the
+// innermost open element with that name; elements above it are closed *implicitly* right before that
+// end tag; elements still open at the end of input end there), and that end tag. Every `Element`
+// method edits one of the regions  before · start tag · prepended · inner · appended · end tag ·
+// after. Content of an element whose inner content is removed is dropped with everything handlers
+// insert inside. Handlers are invoked exactly as the dispatcher is documented to invoke them (the
+// invocation number selects the script), `on_end_tag` handlers only for explicitly closed elements.
 mod reference {
     use super::*;
-    pub fn check(_case: &Case, _out: &[u8]) -> Option<String> {
-        None
+
+    fn enc1(c: &str, is_text: bool) -> Vec<u8> {
+        if !is_text {
+            return c.as_bytes().to_vec();
+        }
+        let mut o = Vec::new();
+        for &b in c.as_bytes() {
+            match b {
+                b'<' => o.extend_from_slice(b"&lt;"),
+                b'>' => o.extend_from_slice(b"&gt;"),
+                b'&' => o.extend_from_slice(b"&amp;"),
+                _ => o.push(b),
+            }
+        }
+        o
+    }
+
+    fn enc(c: &Content) -> Vec<u8> {
+        match c {
+            Content::Buf(s, t) => enc1(s, *t),
+            Content::Stream(w) => w.iter().flat_map(|(s, t)| enc1(s, *t)).collect(),
+        }
+    }
+
+    /// before · (own | replacement | nothing) · after
+    #[derive(Default, Clone)]
+    struct TokEdit {
+        before: Vec<u8>,
+        after: Vec<u8>,
+        dropped: bool,
+        repl: Vec<u8>,
+    }
+
+    impl TokEdit {
+        fn op(&mut self, op: &Op) -> bool {
+            match op {
+                Op::Before(c) => self.before.extend(enc(c)),
+                Op::After(c) => {
+                    let mut n = enc(c);
+                    n.extend_from_slice(&self.after);
+                    self.after = n;
+                }
+                Op::Replace(c) => {
+                    self.dropped = true;
+                    self.repl = enc(c);
+                }
+                Op::Remove => self.dropped = true,
+                _ => return false,
+            }
+            true
+        }
+        fn render(&self, own: &[u8]) -> Vec<u8> {
+            let mut o = self.before.clone();
+            if self.dropped {
+                o.extend_from_slice(&self.repl);
+            } else {
+                o.extend_from_slice(own);
+            }
+            o.extend_from_slice(&self.after);
+            o
+        }
+    }
+
+    #[derive(Clone)]
+    struct RAttr {
+        name: Vec<u8>,
+        value: Vec<u8>,
+        raw: Option<Vec<u8>>,
+    }
+
+    #[derive(Clone)]
+    struct RStart {
+        name: Vec<u8>,
+        attrs: Vec<RAttr>,
+        self_closing: bool,
+        raw: Vec<u8>,
+        rebuilt: bool,
+    }
+
+    fn valid_attr_name(n: &str) -> bool {
+        !n.is_empty() && !n.bytes().any(|b| b" \n\r\t\x0c/>=".contains(&b))
+    }
+
+    fn valid_tag_name(n: &str) -> bool {
+        match n.as_bytes().first() {
+            Some(c) if c.is_ascii_alphabetic() => !n.bytes().any(|b| b" \n\r\t\x0c/>".contains(&b)),
+            _ => false,
+        }
+    }
+
+    impl RStart {
+        fn set_attr(&mut self, n: &str, v: &str) {
+            if !valid_attr_name(n) {
+                return;
+            }
+            let ln = n.to_ascii_lowercase();
+            self.rebuilt = true;
+            if let Some(a) = self.attrs.iter_mut().find(|a| a.name.eq_ignore_ascii_case(ln.as_bytes())) {
+                a.value = v.as_bytes().to_vec();
+                a.raw = None;
+            } else {
+                self.attrs.push(RAttr { name: ln.into_bytes(), value: v.as_bytes().to_vec(), raw: None });
+            }
+        }
+        fn remove_attr(&mut self, n: &str) {
+            if !valid_attr_name(n) {
+                return;
+            }
+            let before = self.attrs.len();
+            self.attrs.retain(|a| !a.name.eq_ignore_ascii_case(n.as_bytes()));
+            if self.attrs.len() != before {
+                self.rebuilt = true;
+            }
+        }
+        fn own(&self) -> Vec<u8> {
+            if !self.rebuilt {
+                return self.raw.clone();
+            }
+            let mut o = b"<".to_vec();
+            o.extend_from_slice(&self.name);
+            for a in &self.attrs {
+                o.push(b' ');
+                match &a.raw {
+                    Some(r) => o.extend_from_slice(r),
+                    None => {
+                        o.extend_from_slice(&a.name);
+                        o.extend_from_slice(b"=\"");
+                        for &b in &a.value {
+                            if b == b'"' {
+                                o.extend_from_slice(b"&quot;");
+                            } else {
+                                o.push(b);
+                            }
+                        }
+                        o.push(b'"');
+                    }
+                }
+            }
+            if self.self_closing {
+                if !self.attrs.is_empty() {
+                    o.push(b' ');
+                }
+                o.extend_from_slice(b"/>");
+            } else {
+                o.push(b'>');
+            }
+            o
+        }
+    }
+
+    struct RElem {
+        chc: bool,
+        start: RStart,
+        before: Vec<u8>,
+        start_dropped: bool,
+        start_repl: Vec<u8>,
+        prepend: Vec<u8>,
+        inner_removed: bool,
+        append: Vec<u8>,
+        end_dropped: bool,
+        after: Vec<u8>,
+        end_name: Option<Vec<u8>>,
+        end_handlers: Vec<Vec<Op>>,
+    }
+
+    fn push_front(v: &mut Vec<u8>, c: Vec<u8>) {
+        let mut n = c;
+        n.extend_from_slice(v);
+        *v = n;
+    }
+
+    impl RElem {
+        fn clear_inner(&mut self) {
+            self.prepend.clear();
+            self.append.clear();
+            self.inner_removed = true;
+        }
+        fn op(&mut self, op: &Op) {
+            match op {
+                Op::Before(c) => self.before.extend(enc(c)),
+                Op::After(c) => push_front(&mut self.after, enc(c)),
+                Op::Prepend(c) if self.chc => {
+                    self.start.self_closing = false;
+                    push_front(&mut self.prepend, enc(c));
+                }
+                Op::Append(c) if self.chc => {
+                    self.start.self_closing = false;
+                    self.append.extend(enc(c));
+                }
+                Op::SetInner(c) if self.chc => {
+                    self.start.self_closing = false;
+                    self.clear_inner();
+                    self.prepend = enc(c);
+                }
+                Op::Prepend(_) | Op::Append(_) | Op::SetInner(_) => {}
+                Op::Replace(c) => {
+                    self.start_dropped = true;
+                    self.start_repl = enc(c);
+                    if self.chc {
+                        self.clear_inner();
+                        self.end_dropped = true;
+                    }
+                }
+                Op::Remove => {
+                    self.start_dropped = true;
+                    if self.chc {
+                        self.clear_inner();
+                        self.end_dropped = true;
+                    }
+                }
+                Op::RemoveKeep => {
+                    self.start_dropped = true;
+                    if self.chc {
+                        self.end_dropped = true;
+                    }
+                }
+                Op::SetTagName(n) => {
+                    if valid_tag_name(n) {
+                        self.start.name = n.as_bytes().to_vec();
+                        self.start.rebuilt = true;
+                        if self.chc {
+                            self.end_name = Some(n.as_bytes().to_vec());
+                        }
+                    }
+                }
+                Op::SetAttr(n, v) => self.start.set_attr(n, v),
+                Op::RemoveAttr(n) => self.start.remove_attr(n),
+                Op::StartTag(o) => match &**o {
+                    Op::Before(c) => self.before.extend(enc(c)),
+                    // right after the start tag = front of the inner content (or, without content,
+                    // right after the element)
+                    Op::After(c) => {
+                        if self.chc {
+                            push_front(&mut self.prepend, enc(c))
+                        } else {
+                            push_front(&mut self.after, enc(c))
+                        }
+                    }
+                    Op::Replace(c) => {
+                        self.start_dropped = true;
+                        self.start_repl = enc(c);
+                    }
+                    Op::Remove => self.start_dropped = true,
+                    Op::SetName(n) => {
+                        self.start.name = n.as_bytes().to_vec();
+                        self.start.rebuilt = true;
+                    }
+                    Op::SetAttr(n, v) => self.start.set_attr(n, v),
+                    Op::RemoveAttr(n) => self.start.remove_attr(n),
+                    _ => unreachable!(),
+                },
+                Op::OnEndTag(ops) => {
+                    if self.chc {
+                        self.end_handlers.push(ops.clone());
+                    }
+                }
+                _ => unreachable!(),
+            }
+        }
+        fn start_region(&self) -> Vec<u8> {
+            let mut o = self.before.clone();
+            if self.start_dropped {
+                o.extend_from_slice(&self.start_repl);
+            } else {
+                o.extend(self.start.own());
+            }
+            if self.chc {
+                o.extend_from_slice(&self.prepend);
+            } else {
+                o.extend_from_slice(&self.after);
+            }
+            o
+        }
+        fn has_end_edits(&self) -> bool {
+            !self.append.is_empty()
+                || !self.after.is_empty()
+                || self.end_dropped
+                || self.end_name.is_some()
+                || self.end_handlers.iter().any(|h| !h.is_empty())
+        }
+    }
+
+    struct OpenEl {
+        lname: Vec<u8>,
+        matched: Vec<usize>,
+        elem: Option<RElem>,
+    }
+
+    const VOID: &[&str] = &[
+        "area", "base", "basefont", "bgsound", "br", "col", "embed", "hr", "img", "input", "keygen",
+        "link", "meta", "param", "source", "track", "wbr",
+    ];
+
+    struct Ed<'a> {
+        case: &'a Case,
+        open: Vec<OpenEl>,
+        suppress: usize,
+        out: Vec<u8>,
+        inv: Vec<usize>,
+        text_pending: bool,
+        saw_implicit: bool,
+        saw_eof_unclosed: bool,
+    }
+
+    impl<'a> Ed<'a> {
+        fn emit(&mut self, b: &[u8]) {
+            if self.suppress == 0 {
+                self.out.extend_from_slice(b);
+            }
+        }
+        fn script(&mut self, i: usize) -> Vec<Op> {
+            let h = &self.case.handlers[i];
+            let k = self.inv[i];
+            self.inv[i] += 1;
+            if h.scripts.is_empty() { vec![] } else { h.scripts[k % h.scripts.len()].clone() }
+        }
+        fn active(&self, kind: Kind) -> Vec<usize> {
+            (0..self.case.handlers.len())
+                .filter(|&i| {
+                    let h = &self.case.handlers[i];
+                    h.kind == kind
+                        && (h.sel.is_none() || self.open.iter().any(|o| o.matched.contains(&i)))
+                })
+                .collect()
+        }
+        fn text_chunk(&mut self, text: &[u8]) {
+            let hs = self.active(Kind::Text);
+            if hs.is_empty() {
+                self.emit(text);
+                return;
+            }
+            let mut e = TokEdit::default();
+            let mut own = text.to_vec();
+            for i in hs {
+                for op in self.script(i) {
+                    if !e.op(&op) {
+                        if let Op::SetStr(t) = op {
+                            own = t.into_bytes();
+                        }
+                    }
+                }
+            }
+            let r = e.render(&own);
+            self.emit(&r);
+        }
+        fn flush_text(&mut self) {
+            if self.text_pending {
+                self.text_pending = false;
+                self.text_chunk(b"");
+            }
+        }
+        fn close_implicit(&mut self, o: OpenEl, at_eof: bool) {
+            if let Some(el) = o.elem {
+                if el.inner_removed {
+                    self.suppress -= 1;
+                }
+                if el.has_end_edits() {
+                    if at_eof {
+                        self.saw_eof_unclosed = true;
+                    } else {
+                        self.saw_implicit = true;
+                    }
+                }
+                let mut r = el.append.clone();
+                r.extend_from_slice(&el.after);
+                self.emit(&r);
+            }
+        }
+        fn run(&mut self) {
+            let toks = self.case.toks.clone();
+            let mut off = 0usize;
+            for t in &toks {
+                match t {
+                    Tok::Text { raw } => {
+                        let any = !self.active(Kind::Text).is_empty();
+                        if !any {
+                            self.emit(raw);
+                        } else {
+                            // one chunk per piece between cuts
+                            let mut start = 0usize;
+                            let mut cuts: Vec<usize> = self
+                                .case
+                                .cuts
+                                .iter()
+                                .copied()
+                                .filter(|&c| c > off && c < off + raw.len())
+                                .collect();
+                            cuts.dedup();
+                            for c in cuts {
+                                self.text_pending = true;
+                                self.text_chunk(&raw[start..c - off]);
+                                start = c - off;
+                            }
+                            self.text_pending = true;
+                            self.text_chunk(&raw[start..]);
+                        }
+                    }
+                    Tok::Comment { raw, text } => {
+                        self.flush_text();
+                        let hs = self.active(Kind::Comment);
+                        if hs.is_empty() {
+                            self.emit(raw);
+                        } else {
+                            let mut e = TokEdit::default();
+                            let mut own = raw.clone();
+                            let _ = text;
+                            for i in hs {
+                                for op in self.script(i) {
+                                    if !e.op(&op) {
+                                        if let Op::SetText(t) = op {
+                                            let bad = t.contains("-->")
+                                                || t.contains("--!>")
+                                                || t.starts_with('>')
+                                                || t.starts_with("->");
+                                            if !bad {
+                                                own = format!("<!--{t}-->").into_bytes();
+                                            }
+                                        }
+                                    }
+                                }
+                            }
+                            let r = e.render(&own);
+                            self.emit(&r);
+                        }
+                    }
+                    Tok::Doctype { raw } => {
+                        self.flush_text();
+                        let hs = self.active(Kind::Doctype);
+                        let mut removed = false;
+                        for i in hs {
+                            for op in self.script(i) {
+                                if let Op::Remove = op {
+                                    removed = true;
+                                }
+                            }
+                        }
+                        if !removed {
+                            self.emit(raw);
+                        }
+                    }
+                    Tok::Start { raw, name, self_closing, foreign, attrs } => {
+                        self.flush_text();
+                        let lname = name.to_ascii_lowercase();
+                        let chc = if *foreign {
+                            !*self_closing
+                        } else {
+                            !VOID.iter().any(|v| v.as_bytes() == &lname[..])
+                        };
+                        let matched: Vec<usize> = (0..self.case.handlers.len())
+                            .filter(|&i| match &self.case.handlers[i].sel {
+                                Some(s) => s == "*" || s.as_bytes() == &lname[..],
+                                None => false,
+                            })
+                            .collect();
+                        let el_handlers: Vec<usize> = matched
+                            .iter()
+                            .copied()
+                            .filter(|&i| self.case.handlers[i].kind == Kind::Element)
+                            .collect();
+                        let mut elem = None;
+                        if el_handlers.is_empty() {
+                            self.emit(raw);
+                        } else {
+                            let mut el = RElem {
+                                chc,
+                                start: RStart {
+                                    name: name.clone(),
+                                    attrs: attrs
+                                        .iter()
+                                        .map(|a| RAttr {
+                                            name: a.name.clone(),
+                                            value: a.value.clone(),
+                                            raw: Some(a.raw.clone()),
+                                        })
+                                        .collect(),
+                                    self_closing: *self_closing,
+                                    raw: raw.clone(),
+                                    rebuilt: false,
+                                },
+                                before: vec![],
+                                start_dropped: false,
+                                start_repl: vec![],
+                                prepend: vec![],
+                                inner_removed: false,
+                                append: vec![],
+                                end_dropped: false,
+                                after: vec![],
+                                end_name: None,
+                                end_handlers: vec![],
+                            };
+                            for i in el_handlers {
+                                for op in self.script(i) {
+                                    el.op(&op);
+                                }
+                            }
+                            let r = el.start_region();
+                            self.emit(&r);
+                            if chc && el.inner_removed {
+                                self.suppress += 1;
+                            }
+                            elem = Some(el);
+                        }
+                        if chc {
+                            self.open.push(OpenEl { lname, matched, elem });
+                        }
+                    }
+                    Tok::End { raw, name } => {
+                        self.flush_text();
+                        let lname = name.to_ascii_lowercase();
+                        match self.open.iter().rposition(|o| o.lname == lname) {
+                            None => self.emit(raw),
+                            Some(idx) => {
+                                while self.open.len() > idx + 1 {
+                                    let o = self.open.pop().unwrap();
+                                    self.close_implicit(o, false);
+                                }
+                                let target = self.open.pop().unwrap();
+                                match target.elem {
+                                    None => self.emit(raw),
+                                    Some(el) => {
+                                        if el.inner_removed {
+                                            self.suppress -= 1;
+                                        }
+                                        let mut e = TokEdit {
+                                            before: el.append.clone(),
+                                            after: el.after.clone(),
+                                            dropped: el.end_dropped,
+                                            repl: vec![],
+                                        };
+                                        let mut own = match &el.end_name {
+                                            Some(n) => [b"</", &n[..], b">"].concat(),
+                                            None => raw.clone(),
+                                        };
+                                        for h in &el.end_handlers {
+                                            for op in h {
+                                                if !e.op(op) {
+                                                    if let Op::SetName(n) = op {
+                                                        own = [b"</", n.as_bytes(), b">"].concat();
+                                                    }
+                                                }
+                                            }
+                                        }
+                                        let r = e.render(&own);
+                                        self.emit(&r);
+                                    }
+                                }
+                            }
+                        }
+                    }
+                }
+                off += t.raw().len();
+            }
+            self.flush_text();
+            while let Some(o) = self.open.pop() {
+                self.close_implicit(o, true);
+            }
+            // `end` handlers: the dispatcher runs them last-registered first; DocumentEnd::append
+            // writes whatever the emission state is
+            let ends: Vec<usize> = (0..self.case.handlers.len())
+                .filter(|&i| self.case.handlers[i].kind == Kind::End)
+                .collect();
+            for i in ends.into_iter().rev() {
+                for op in self.script(i) {
+                    if let Op::EndAppend(c, t) = op {
+                        self.out.extend(enc1(&c, t));
+                    }
+                }
+            }
+        }
+    }
+
+    /// `Some(flag text)` if the implementation's output is not the documented edit.
+    pub fn check(case: &Case, out: &[u8]) -> Option<String> {
+        let mut ed = Ed {
+            case,
+            open: vec![],
+            suppress: 0,
+            out: vec![],
+            inv: vec![0; case.handlers.len()],
+            text_pending: false,
+            saw_implicit: false,
+            saw_eof_unclosed: false,
+        };
+        ed.run();
+        if ed.out == out {
+            return None;
+        }
+        let tag = if ed.saw_implicit {
+            "implicit-close"
+        } else if ed.saw_eof_unclosed {
+            "unclosed-eof"
+        } else {
+            "other"
+        };
+        Some(format!("{tag} expected={} got={}", hex_or_dash(&ed.out), hex_or_dash(out)))
     }
 }
